@@ -153,49 +153,60 @@ class Ctx:
         self.stats = dict(cases=0, steps=0, conform=0, drift=0, rejected=0, known=0, panics=0, trace_events=0)
         self.kf_cases = {}
         self.n = 0
+        self.drifts = 0
 
-    def judge(self, cases, what, compare=True):
-        """run the cases on the real runtime, compare with M, validate every trace against P"""
+    def judge(self, groups, results=None):
+        """groups: [(name, cases, compare)].  Runs all cases on the real runtime (one harness process), validates
+        every trace against P (one TLC run), compares with M.  Returns per-group stats."""
+        cases = [c for (_, cs, _) in groups for c in cs]
         if not cases:
-            return []
+            return {}
         self.n += 1
-        results = rp.run_cases("h_runtime", "dlruntime", [strip(c) for c in cases], self.wd,
-                               tag="run%d" % self.n, strip=False)
+        if results is None:
+            results = rp.run_cases("h_runtime", "dlruntime", [strip(c) for c in cases], self.wd,
+                                   tag="run%d" % self.n, strip=False)
         verdicts, nev = p_validate(cases, results, self.wd, self.enabled, "tv%d" % self.n)
-        st = self.stats
-        st["trace_events"] += nev
-        for c, r in zip(cases, results):
-            st["cases"] += 1
-            st["steps"] += len(c["acts"])
-            v = verdicts.get(c["id"])
-            if r.get("panic") is not None:
-                st["panics"] += 1
-                st["rejected"] += 1
-                self.out.violation("%s: case %s: panic in the downlink runtime: %s" % (what, c["id"], r["panic"]),
-                                   {"component": what, "case": c, "observed": r})
-                continue
-            d = first_diff(c, r) if compare else None
-            if v and v[0] == "fail":
-                st["rejected"] += 1
-                self.out.violation("%s: case %s: P (DownlinkSession) rejects the recorded execution: %s%s" % (
-                    what, c["id"], v[1], "" if d is None else " [first divergence from M at action %d]" % d),
-                    {"component": what, "case": c, "observed": r, "why": v[1]})
-                continue
-            if v and v[0] == "kf":
-                st["known"] += 1
-                for k in v[1]:
-                    self.kf_cases.setdefault(k, c)
-                    self.out.known_finding("%s: %s" % (k, self.open[k]["what"]))
-            if d is None:
-                st["conform"] += 1
-            else:
-                st["drift"] += 1
-                if st["drift"] <= 3:
-                    exp = c["acts"][d]["exp"] if d < len(c["acts"]) else None
-                    got = r.get("obs", [])[d] if d < len(r.get("obs", [])) else None
-                    self.out.notes.append("MODEL-DRIFT %s case %s action %d (%s): M expects %s, real runtime gave %s" % (
-                        what, c["id"], d, c["acts"][d]["k"] if d < len(c["acts"]) else "-", json.dumps(exp), json.dumps(got)))
-        return results
+        self.stats["trace_events"] += nev
+        per = {}
+        it = iter(zip(cases, results))
+        for what, cs, compare in groups:
+            g = per.setdefault(what, dict(cases=0, steps=0, conform=0, drift=0, rejected=0, known=0, panics=0))
+            for _ in cs:
+                c, r = next(it)
+                g["cases"] += 1
+                g["steps"] += len(c["acts"])
+                v = verdicts.get(c["id"])
+                if r.get("panic") is not None:
+                    g["panics"] += 1
+                    g["rejected"] += 1
+                    self.out.violation("%s: case %s: panic in the downlink runtime: %s" % (what, c["id"], r["panic"]),
+                                       {"component": what, "case": c, "observed": r})
+                    continue
+                d = first_diff(c, r) if compare else None
+                if v and v[0] == "fail":
+                    g["rejected"] += 1
+                    self.out.violation("%s: case %s: P (DownlinkSession) rejects the recorded execution: %s%s" % (
+                        what, c["id"], v[1], "" if d is None else " [first divergence from M at action %d]" % d),
+                        {"component": what, "case": c, "observed": r, "why": v[1]})
+                    continue
+                if v and v[0] == "kf":
+                    g["known"] += 1
+                    for k in v[1]:
+                        self.kf_cases.setdefault(k, c)
+                        self.out.known_finding("%s: %s" % (k, self.open[k]["what"]))
+                if d is None:
+                    g["conform"] += 1
+                else:
+                    g["drift"] += 1
+                    self.drifts += 1
+                    if self.drifts <= 3:
+                        exp = c["acts"][d]["exp"] if d < len(c["acts"]) else None
+                        got = r.get("obs", [])[d] if d < len(r.get("obs", [])) else None
+                        self.out.notes.append("MODEL-DRIFT %s case %s action %d (%s): M expects %s, real runtime gave %s" % (
+                            what, c["id"], d, c["acts"][d]["k"] if d < len(c["acts"]) else "-", json.dumps(exp), json.dumps(got)))
+            for k, v_ in g.items():
+                self.stats[k] = self.stats.get(k, 0) + v_
+        return per
 
 
 # ----------------------------------------------------------------------------- probes
@@ -225,35 +236,41 @@ def run_probes(ctx):
     for r in res:
         if r.get("panic") is not None:
             raise core.ToolError("probe panicked: %s" % r["panic"])
-    strict, _ = p_validate(cs, res, ctx.wd, [], "tv_probe0")
-    lenient, _ = p_validate(cs, res, ctx.wd, ALL_FINDINGS, "tv_probe1")
+    # with every deviation enabled P takes one only where the execution is otherwise rejected
+    lenient, _ = p_validate(cs, res, ctx.wd, ALL_FINDINGS, "tv_probe")
     present = set()
     for f in ALL_FINDINGS:
-        cid = "probe-" + f
-        if cid in strict and strict[cid][0] == "fail":
-            l = lenient.get(cid)
-            if l and l[0] == "kf" and f in l[1]:
-                present.add(f)
-            else:
-                raise core.ToolError("probe %s fails in an unexpected way: %s / %s" % (cid, strict[cid], l))
-    return present
+        v = lenient.get("probe-" + f)
+        if v is None:
+            continue
+        if v[0] == "kf" and f in v[1]:
+            present.add(f)
+        else:
+            raise core.ToolError("probe %s behaves in an unexpected way: %s" % (f, v))
+    return present, cs, res
 
 
 # ----------------------------------------------------------------------------- the check
 
 def b3_configs(tier, fixed):
-    q = tier == "quick"
+    if tier == "quick":
+        return [
+            ("value bursts", consts("value", fixed, Settled=False, AllowEmpty=True, AllowStop=True, MaxCmd=1, MaxSet=1,
+                                     MaxSteps=4, SockCap=1)),
+            ("map bursts hold", consts("map", fixed, Settled=False, AllowHold=True, MaxCmd=2, MaxSet=1, MaxSteps=3, SockCap=1)),
+            ("map settled hold", consts("map", fixed, Settled=True, AllowHold=True, AllowStop=True, MaxCmd=2, MaxSet=1, MaxSteps=4,
+                                         SockCap=1, InitLane="<- LaneM2")),
+        ]
     return [
         ("value bursts", consts("value", fixed, Settled=False, AllowEmpty=True, AllowStop=True, MaxCmd=2, MaxSet=1,
-                                 MaxSteps=3 if q else 5, SockCap=1)),
-        ("map bursts hold", consts("map", fixed, Settled=False, AllowHold=True, MaxCmd=2, MaxSet=1,
-                                    MaxSteps=3 if q else 5, SockCap=1, InitLane="<- LaneM2")),
-    ] + ([] if q else [
-        ("value cap0 settled deep", consts("value", fixed, Settled=True, AllowEmpty=True, AllowStop=True, MaxCmd=3, MaxSet=2,
-                                            MaxSteps=7, SockCap=0)),
-        ("map settled deep", consts("map", fixed, Settled=True, AllowHold=True, AllowStop=True, MaxCmd=3, MaxSet=1,
-                                     MaxSteps=6, SockCap=1, KeySeq="<- Keys1")),
-    ])
+                                 MaxSteps=5, SockCap=1)),
+        ("map bursts hold", consts("map", fixed, Settled=False, AllowHold=True, MaxCmd=2, MaxSet=1, MaxSteps=4, SockCap=1,
+                                    InitLane="<- LaneM2")),
+        ("value cap0 settled", consts("value", fixed, Settled=True, AllowEmpty=True, AllowStop=True, MaxCmd=3, MaxSet=1,
+                                       MaxSteps=5, SockCap=0)),
+        ("map settled hold", consts("map", fixed, Settled=True, AllowHold=True, AllowStop=True, MaxCmd=2, MaxSet=1, MaxSteps=5,
+                                     SockCap=1, InitLane="<- LaneM2")),
+    ]
 
 
 def gen_configs(tier, fixed):
@@ -305,11 +322,12 @@ def run(tier, out):
     ctx = Ctx(out, wd, tier)
 
     # 0. which listed findings does this tree have?
-    present = run_probes(ctx)
+    present, pcases, pres = run_probes(ctx)
     fixed = [f for f in MODEL_FIXABLE if f not in present]
     core.log("[C07] findings exhibited by the tree under test: %s ; M models as repaired: %s ; open in known_findings: %s" % (
         sorted(present), fixed, sorted(ctx.open)))
-    ctx.judge(probes(), "probe", compare=False)
+    groups = [("probe", pcases, False)]
+    presults = list(pres)
 
     # 1. B3: M |= P
     states = transitions = 0
@@ -317,7 +335,7 @@ def run(tier, out):
     b3 = []
     for name, c in b3_configs(tier, fixed):
         r = core.run_tlc("MC_DownlinkRuntime", cfgtext(c, INVS, view="MView"), os.path.join(wd, "b3_" + name.replace(" ", "_")),
-                         workers=4, timeout=1500)
+                         workers=4, timeout=2400)
         if not r.ok:
             raise core.ToolError("M violates P in TLC (%s %s) for %s:\n%s" % (r.status, r.violated, name, r.counterexample[:4000]))
         states += r.distinct
@@ -331,10 +349,10 @@ def run(tier, out):
     for gi, (name, c, mode, n) in enumerate(gen_configs(tier, fixed)):
         gwd = os.path.join(wd, "gen%d" % gi)
         if mode == "bfs":
-            r = core.run_tlc("MC_DownlinkRuntime", cfgtext(c, INVS, action_constraints=["DumpOnFinish"]), gwd, workers=1, timeout=1500)
+            r = core.run_tlc("MC_DownlinkRuntime", cfgtext(c, INVS, action_constraints=["DumpOnFinish"]), gwd, workers=1, timeout=2400)
         else:
-            r = core.run_tlc("MC_DownlinkRuntime", cfgtext(c, INVS, action_constraints=["DumpOnFinish"]), gwd, workers=1, timeout=1500,
-                             simulate="num=%d" % n, extra=["-depth", "120", "-seed", str(core.seed() + gi)])
+            r = core.run_tlc("MC_DownlinkRuntime", cfgtext(c, INVS, action_constraints=["DumpOnFinish"]), gwd, workers=1, timeout=2400,
+                             simulate="num=%d" % n, extra=["-depth", "150", "-seed", str(core.seed() + gi)], coverage=False)
         if not r.ok:
             raise core.ToolError("M violates P in TLC (%s %s) for %s:\n%s" % (r.status, r.violated, name, r.counterexample[:4000]))
         merge_cov(cov, r)
@@ -349,16 +367,25 @@ def run(tier, out):
         if mode == "bfs":
             states += r.distinct
             transitions += r.generated
-        before = dict(ctx.stats)
-        ctx.judge(cases, name)
-        d = {k: ctx.stats[k] - before[k] for k in ctx.stats}
-        gen.append({"config": name, "mode": mode, "scripts": len(cases), "tlc_states": r.distinct, "conform": d["conform"],
-                    "drift": d["drift"], "rejected": d["rejected"], "known": d["known"], "wall_s": round(r.wall, 1)})
-        core.log("[C07] %s (%s): %d scripts / %d actions; conform=%d drift=%d known=%d rejected=%d (TLC %.1fs)" % (
-            name, mode, len(cases), d["steps"], d["conform"], d["drift"], d["known"], d["rejected"], r.wall))
+        groups.append((name, cases, True))
+        gen.append({"config": name, "mode": mode, "scripts": len(cases), "tlc_states": r.distinct, "wall_s": round(r.wall, 1)})
+        core.log("[C07] generated %s (%s): %d scripts (TLC %.1fs)" % (name, mode, len(cases), r.wall))
         if cases and len(out.cov["samples"]) < 4:
             s = cases[len(cases) // 2]
             out.sample({"config": name, "cfg": s["cfg"], "script_with_expected_outputs": s["acts"][:10]})
+    allc = [c for (_, cs, _) in groups[1:] for c in cs]
+    t0 = time.time()
+    res = rp.run_cases("h_runtime", "dlruntime", [strip(c) for c in allc], wd, tag="all", strip=False)
+    t1 = time.time()
+    per = ctx.judge(groups, presults + res)
+    core.log("[C07] real runtime: %d scripts in %.1fs; P validation of %d events in %.1fs" % (
+        len(allc), t1 - t0, ctx.stats["trace_events"], time.time() - t1))
+    for g in gen:
+        d = per.get(g["config"], {})
+        g.update({k: d.get(k, 0) for k in ("conform", "drift", "rejected", "known")})
+        core.log("[C07] %s: %d scripts / %d actions; conform=%d drift=%d known=%d rejected=%d" % (
+            g["config"], d.get("cases", 0), d.get("steps", 0), d.get("conform", 0), d.get("drift", 0), d.get("known", 0),
+            d.get("rejected", 0)))
 
     st = ctx.stats
     never = [a for a in ACTIONS if cov.get(a, (0, 0))[1] == 0]
